@@ -289,8 +289,19 @@ func (i ItemCollection) Equals(with Item) bool {
 			result = false
 			return nil
 		}
+		// every member is matched with a member of the other list that no earlier member took:
+		// with equal counts that makes the two lists hold the same members the same number of times
+		used := make([]bool, len(*w))
 		for _, it := range i {
-			if !w.Contains(it) {
+			found := false
+			for k, o := range *w {
+				if !used[k] && ItemsEqual(o, it) {
+					used[k] = true
+					found = true
+					break
+				}
+			}
+			if !found {
 				result = false
 				return nil
 			}
